@@ -986,7 +986,28 @@ def oracle_only_op(kind, line, out):
 
 
 # ------------------------------------------------------------------------------------------ run
+def directed_search(ctx):
+    """a proof / tie obligation broke but the oracle found nothing: search the real code harder (10x the quick sample)"""
+    for variant in ("scalar", "avx"):
+        impl = ctx.harness("harness/c/c23_linalg.c", "c23_linalg", variant=variant)
+        if not impl:
+            continue
+        pairs = gen_lines(ctx, 1100) + gen_oracle_lines(ctx, 1500)
+        rc, outs, err = ctx.run_lines([impl], [l for _, l in pairs])
+        if rc != 0 or len(outs) != len(pairs):
+            idx = min(len(outs), len(pairs) - 1)
+            return {"key": "c23:crash:" + variant, "what": "linear-algebra harness crashed (rc=%s)" % rc,
+                    "replay": {"line": pairs[idx][1][:6000], "variant": variant}}
+        for (kind, l), o in zip(pairs, outs):
+            why = (oracle_only_op if kind.startswith("o_") or kind == "spmv_super" else oracle_diff_op)(kind, l, o)
+            if why:
+                return {"key": "c23:" + why.split(":")[0].split(" ")[0] + ":" + kind.split(":")[0], "what": why + " [%s build]" % variant,
+                        "replay": {"line": l[:6000], "impl_output": o[:3000], "variant": variant}}
+    return None
+
+
 def run(ctx):
+    ctx.directed_search = directed_search
     thorough = ctx.tier == "thorough"
     ctx.rule = ("op lines with hex-encoded doubles: sizes 0..40 weighted to the SIMD remainders 1..9; sparse patterns in "
                 "compressed / uncompressed (rowadr = r*nc) / gapped / shuffled layouts with empty rows, unsorted and "
